@@ -97,14 +97,14 @@ impl PartialEq for StateFeature {
                 StateFeature::Custom {
                     r#type: a_name,
                     unit: a_unit,
-                    format: _,
+                    format: a_format,
                 },
                 StateFeature::Custom {
                     r#type: b_name,
                     unit: b_unit,
-                    format: _,
+                    format: b_format,
                 },
-            ) => a_name == b_name && a_unit == b_unit,
+            ) => a_name == b_name && a_unit == b_unit && a_format.name() == b_format.name(),
             _ => false,
         }
     }
